@@ -14,6 +14,7 @@ pub mod c13;
 pub mod c14;
 pub mod c15;
 pub mod c16;
+pub mod c18;
 
 use crate::{
     check::{CellPlan, Outcome, Tier, run_cells},
@@ -55,6 +56,9 @@ pub fn run(prop: &str, tier: Tier, budget: f64, out: &mut Outcome) -> Result<(),
     if prop == "C14" {
         return c14::run(tier, budget, out);
     }
+    if prop == "C18" {
+        return c18::run(tier, budget, out);
+    }
     if prop == "C15" {
         return c15::run(tier, budget, out);
     }
@@ -79,6 +83,7 @@ pub fn replay(path: &str) -> i32 {
         Some("struct") => return c12::replay_struct(&doc),
         Some("bytes") => return c06::replay(&doc),
         Some("codec") => return c15::replay(&doc),
+        Some("scene") => return c18::replay(&doc),
         Some("protocol") => return c14::replay(&doc),
         _ => {}
     }
